@@ -13,12 +13,16 @@ theorem pstep_static {p p1 : PConfig} {m : PMove} (hs : pstep p m = some p1) :
       | (simp only [Option.some.injEq] at hs; subst hs; simp only [fwRecv, exRecv, pidRecv]
          try ((repeat' split) <;> simp))
 
-/-- a backpressure PullID pipeline whose forwarder lets everything through -/
-def PConfig.Plain (p : PConfig) : Prop := p.hasEx = false ∧ p.hasPid = true ∧ ∀ m, p.keep m = true
+/-- a backpressure PullID pipeline whose forwarder — whatever else its include filter and the collection's equivalence
+(`WithEquivalence` / `WithMessageEquivalence` / `WithNoDuplicates`) drop: `keep` is otherwise ARBITRARY — never drops a
+REMOVE of the watched item (a comparer like `cmp.Equal` never relates a message to the absent new value of a
+REMOVE) -/
+def PConfig.Plain (p : PConfig) : Prop :=
+  p.hasEx = false ∧ p.hasPid = true ∧ ∀ tag, p.keep ⟨p.target, .remove, tag⟩ = true
 
 theorem plain_step {p p1 : PConfig} {m : PMove} (h : p.Plain) (hs : pstep p m = some p1) : p1.Plain := by
-  obtain ⟨a, b, _, d⟩ := pstep_static hs
-  exact ⟨a ▸ h.1, b ▸ h.2.1, fun x => by rw [d]; exact h.2.2 x⟩
+  obtain ⟨a, b, c, d⟩ := pstep_static hs
+  exact ⟨a ▸ h.1, b ▸ h.2.1, fun x => by rw [d, c]; exact h.2.2 x⟩
 
 /-- the REMOVE handed to the subscription has ended it, or is on its way: it sits in the forwarder's hand, next in
 line for the PullID stage — unless the subscriber has cancelled in the meantime (then everything ends anyway) -/
